@@ -446,6 +446,20 @@ func (app *App) Validate() error {
 // Start runs the app. It finishes automatic HTTPS if enabled,
 // including management of certificates.
 func (app *App) Start() error {
+	err := app.start()
+	if err != nil {
+		// an app that failed to start does not get stopped by
+		// the caller, so we have to release what we have bound
+		// and started serving up to the point of failure
+		app.abortStart()
+	}
+	return err
+}
+
+// start does the work of Start. If it returns an error, some of
+// the servers may be running and some of the listeners may be
+// bound and already accepting connections.
+func (app *App) start() error {
 	// get a logger compatible with http.Server
 	serverLogger, err := zap.NewStdLogAt(app.logger.Named("stdlib"), zap.DebugLevel)
 	if err != nil {
@@ -642,6 +656,32 @@ func (app *App) Start() error {
 	}
 
 	return nil
+}
+
+// abortStart immediately closes the servers, and with them the
+// listeners, that a failed call to start has left behind; there
+// is nothing to be graceful about, as the config these servers
+// belong to is being rejected.
+func (app *App) abortStart() {
+	for name, srv := range app.Servers {
+		if srv.server != nil {
+			// this closes every listener we have passed to Serve
+			// exactly once (even if its Serve goroutine has not
+			// been scheduled yet: Serve then closes it right away)
+			if err := srv.server.Close(); err != nil {
+				app.logger.Error("closing server after failed start",
+					zap.String("server", name),
+					zap.Error(err))
+			}
+		}
+		if srv.h3server != nil {
+			if err := srv.h3server.Close(); err != nil {
+				app.logger.Error("closing HTTP/3 server after failed start",
+					zap.String("server", name),
+					zap.Error(err))
+			}
+		}
+	}
 }
 
 // Stop gracefully shuts down the HTTP server.
